@@ -48,13 +48,13 @@ SPEC = {
     'the traced function keeps the graph structure of its arguments (it updates Variable values; it does not add, remove or rewire Variables of its inputs) and returns arrays, fresh graph nodes, or - as the scan carry - the carry argument itself',
     'C04 refinement taken as a named hypothesis: the outer from_tree(is_inner=False) writes the returned states into the caller\'s Variables by identity (Model: updateStore)',
     'jax.vmap\'s unbatchedness check of results declared None enters by its verdict (computed by the harness as data dependence on a mapped input)',
-    'nnx.scan bodies do not write Variables routed to None (broadcast): the implementation silently drops such writes (proposed finding scan-broadcast-write-dropped); the model follows the code, theorem scan_eq_loop_nnx states it',
+    'nnx.scan bodies do not write Variables routed to None (broadcast): the implementation silently drops such writes (known finding F33 scan-broadcast-write-dropped); the model follows the code and the reference scanSpecN of scan_eq_loop_nnx leaves broadcast Variables at their original values',
     'gradient *values* are JAX\'s (A-AD): they are compared real-vs-jax.grad-of-the-functional-form only; the model decides which leaves are differentiated, the value, the aux and the side effects',
     'in_axes / out_axes prefix trees of depth one (one entry for all, or one per argument / result); pmap, shard_map, custom_vjp do not run in this sandbox',
   ],
   'model_partial': [
-    'scan_eq_loop_nnx_partial: proved up to and including the loop (same n, same processing order in either direction, every ScanFn call on the Python loop\'s per-Variable values, carry threaded, broadcast constant, same final array carry, per-iteration records related); NOT proved: that scanWriteBack / scanCollectOut applied to the related records compute the per-Variable stack-by-index / final-carry / original-broadcast values of scanSpecN (positional popleft bookkeeping of _scan_merge_out) - tied by the correspondence run only',
-    'vmap_eq_per_index: soundness direction (whenever nnx.vmap returns, vmapSpecN over n = the common size of all mapped leaves returns the same); the converse (no spurious rejection of inputs on which the reference is defined) is not proved',
+    'scan_eq_loop_nnx: soundness direction (whenever nnx.scan returns, the explicit Python loop scanSpecN over the same n and processing order returns the same final store, stacked outputs and final carry); n = the common size of every scanned leaf along its axis (and `length` if given); the converse (no spurious rejection of inputs on which the loop is defined) is not proved',
+    'vmap_eq_per_index: soundness direction (whenever nnx.vmap returns, vmapSpecN over n = the common size of all mapped leaves returns the same); of the converse only the part before the calls is proved (to_tree_accepts_iff: to_tree accepts exactly consistent aliasing; vmap_no_rejection_before_calls: if the reference slices of index i are defined the function is called on them); that the remaining rejection causes (unbatchedness verdict, stacking of per-index values, out_axes arity / missing axis, size check) coincide with the reference being undefined is not proved',
     'grad_value_aux_effects_once / grad_depends_on_extension_only: everything up to the call of jax.value_and_grad and after it is proved; that the returned numbers are the derivative is assumption A-AD (label: partial); the identification of GradFn\'s merged input with "selected leaves from the argument, unselected closed over" is by definition of gradFn/gradMergeAll and checked by correspondence, not restated per Variable',
   ],
 }
